@@ -1214,3 +1214,61 @@ func FuzzStrings(f *testing.F) {
 		def.One(t, Case{Target: stringTargets[int(sel)%len(stringTargets)], Fam: "native-fuzz", Str: s})
 	})
 }
+
+// ---------- well-signed tokens in other serializations ----------
+
+// Reencoded: an honest token (floats, nested values, links included) whose sealed bytes are re-encoded in a
+// data-preserving but non-canonical way (shorter floats, non-minimal heads, indefinite lengths, permuted keys,
+// ...). The signature still verifies over the decoded content, so every check behind verification runs on
+// bytes the library's own encoder never produces. The input slice has NO spare capacity (as handed over by a
+// container reader or a copy).
+var reencProp = h.Define(P, "reencoded", func(t *rapid.T) Case {
+	d := tok.Gen(t, tok.GenCfg{Algs: []keys.Alg{keys.Ed25519, keys.Ed25519, keys.P256, keys.RSA}, NoTopNull: true, OnlyFuture: true,
+		Values: val.Cfg{Depth: 2, MaxLen: 3, SafeInts: true}})
+	// make sure a float is there to be shortened
+	if d.Inv != nil {
+		d.Inv.Meta = append(d.Inv.Meta, tok.KVal{K: "zzf", V: val.Float(1.5)})
+	} else if d.Dlg != nil {
+		d.Dlg.Meta = append(d.Dlg.Meta, tok.KVal{K: "zzf", V: val.Float(-0.25)})
+	}
+	tk, priv, err := tok.Build(d)
+	if err != nil {
+		return Case{Target: "token.FromSealed", Fam: "reencoded", Bytes: []byte{0x80}}
+	}
+	var sealed []byte
+	switch x := tk.(type) {
+	case *delegation.Token:
+		sealed, _, err = x.ToSealed(priv)
+	case *invocation.Token:
+		sealed, _, err = x.ToSealed(priv)
+	}
+	if err != nil {
+		return Case{Target: "token.FromSealed", Fam: "reencoded", Bytes: []byte{0x80}}
+	}
+	root, _, err := cbor.Parse(sealed)
+	if err == nil {
+		n := rapid.IntRange(1, 3).Draw(t, "nre")
+		for i := 0; i < n; i++ {
+			kind := rapid.SampledFrom(cbor.Reencodings).Draw(t, "rekind")
+			var cands []int
+			for j := 0; j < root.Count(); j++ {
+				if cbor.Applicable(root.Nth(j), kind) {
+					cands = append(cands, j)
+				}
+			}
+			if len(cands) > 0 {
+				cbor.Apply(root.Nth(rapid.SampledFrom(cands).Draw(t, "reitem")), kind)
+			}
+		}
+		sealed = root.Bytes()
+	}
+	exact := make([]byte, len(sealed))
+	copy(exact, sealed)
+	tg := rapid.SampledFrom(byteTargets).Draw(t, "retarget")
+	if tg == "meta.GetEncrypted" {
+		tg = "token.FromSealed"
+	}
+	return Case{Target: tg, Fam: "reencoded", Bytes: exact}
+}, run)
+
+func TestReencoded(t *testing.T) { reencProp.Check(t) }
